@@ -223,7 +223,7 @@ def sec_postcollect(ck):
 def main():
     ck = Check("C03", "GAE")
     ck.mode = "REAL"
-    Ts = [1, 2, 3, 4, 5] + ([6, 7, 8] if ck.thorough else [])       # closed form (nlsat)
+    Ts = [1, 2, 3, 4, 5] + ([6, 7] if ck.thorough else [])       # closed form (nlsat)
     Trec = [1, 2, 3, 5, 8] + ([12, 16] if ck.thorough else [])       # the statement's own recurrence (shared subterms)
     ck.bound(T=Ts, envs=2, note="rollout length T is the scan length, static in the IR; rewards, values, done flags, bootstrap value, gamma and lambda are symbolic reals (no range restriction)")
     ck.out("float32 rounding (identities are over the reals, as the property states)")
